@@ -601,6 +601,7 @@ func copyFile(src, dst string) error {
 func (s *lease4) Finish(w *World) {
 	s.collectClockReads(w)
 	s.firstDelivery(w)
+	s.serialCheck(w)
 	if !w.Up() {
 		// the last incarnation never came up (crashed during start-up with nothing scheduled): restart once, faults off
 		w.FaultsOn = false
